@@ -13,7 +13,7 @@ Ltac Zify.zify_post_hook ::= Z.div_mod_to_equations.
 Lemma idx_table : forall (T : list N) i, 0 <= i < Z.of_nat (length T) ->
   idx (map Z.of_N T) i = Some (Z.of_N (tab T (Z.to_N i))).
 Proof.
-  intros T i H. unfold idx, tab. destruct (Z.ltb_spec i 0); [lia|].
+  intros T i H. unfold idx, tab. rewrite map_length. destruct (Z.ltb_spec i 0); [lia|]. destruct (Z.leb_spec (Z.of_nat (length T)) i); [lia|]. cbn [orb].
   rewrite nth_error_map. rewrite Z_N_nat.
   rewrite (nth_error_nth' T 0%N) by lia. reflexivity.
 Qed.
